@@ -48,10 +48,10 @@ CHECKS = {
  "C14": ("runtime monitor: occurrence-list oracle from the generating AST for the 10 identifier iterators + renaming metamorphic test + unknown-identifier containment",
          "For every program of the workload the iterators list exactly the identifier occurrences in source order by class, and consistent renaming through the mutable iterators and the context leaves the result unchanged. " + HELD,
          "Trusts the reference parser (C02) for the AST and pre-order = source order for this grammar.", "DESIGN.md §4 C14"),
- "C15": ("runtime monitoring + sanitizers: concurrent-equals-sequential result oracle under a hostile thread workload (barrier start, shared Arc<Node>/contexts, delay injection in user code), Miri (UB and data-race interpreter, many seeds) and ThreadSanitizer (thorough); Send + Sync decided by the type checker on an assertion crate",
+ "C15": ("runtime monitoring + sanitizers: concurrent-equals-sequential result oracle under a hostile thread workload (barrier start, shared Arc<Node>/contexts, delay injection in user code; cold-start processes whose first use of the library is concurrent, per-thread clones of a stateful context), Miri (UB and data-race interpreter, many seeds) and ThreadSanitizer (thorough); Send + Sync decided by the type checker on an assertion crate",
          "Every result obtained by any thread for any shared (tree, context) pair equalled the sequential result; Miri/TSan reported no race or UB on the schedules that occurred; the 8 public types are Send + Sync. " + HELD,
          "Race detectors see only schedules that occurred; the static part is rustc's verdict.", "DESIGN.md §4 C15"),
- "C16": ("runtime monitoring: serializer round-trip oracle (ron 0.8.1 and serde's StrDeserializer) for expression strings vs build_operator_tree and for HashMapContexts reachable through the API; the serde trait bounds are a compile-time precondition of the harness crate",
+ "C16": ("runtime monitoring: serializer round-trip oracle (ron 0.8.1 and serde's StrDeserializer) for expression strings vs build_operator_tree (also for a blank-variant sibling right after its twin, against a thread without history) and for HashMapContexts reachable through the API; the serde trait bounds are a compile-time precondition of the harness crate",
          "Every expression string of the workload deserializes to the tree / error message precompilation gives; every context round-trips with identical variables (floats bit-exact), builtin switch and no functions. " + HELD,
          "Trusts ron as transport (strings/values ron itself cannot carry are skipped after a transport self-check); built with cargo +1.81.0.", "DESIGN.md §4 C16"),
 }
